@@ -35,6 +35,14 @@ pub const F_UPGRADE_SLOT1: u8 = 8; // upgrade the weak slot into the object's ow
 pub const F_NBEHAV: u8 = 7;
 pub const F_NBEHAV_WEAK: u8 = 9;
 
+// Destructor behaviours.
+pub const D_NONE: u8 = 0;
+pub const D_TEMP: u8 = 1; // create and release a temporary Cc inside the destructor (nested plain drop)
+pub const D_COLLECT: u8 = 2; // request a collection from inside the destructor
+pub const D_UPGRADE: u8 = 3; // upgrade the weak slot inside the destructor and keep the result (weak-ptrs)
+pub const D_NBEHAV: u8 = 3;
+pub const D_NBEHAV_WEAK: u8 = 4;
+
 pub struct Node {
     pub id: usize,
     pub canary: u32,
@@ -80,12 +88,22 @@ pub struct World {
     pub tainted: bool,
     // ---- behaviours
     pub fin_act: [u8; MAXN],
+    pub drop_act: [u8; MAXN],
+    /// result of an upgrade that contradicts the model (C08)
+    pub bad_upgrade: u32,
+    pub unwrapped: [bool; MAXN],
     // ---- program-held pointers
     pub h: [Option<Cc<Node>>; MAXN],
     pub h2: [Option<Cc<Node>>; MAXN],
     pub stash: [Option<Cc<Node>>; MAXN],
     #[cfg(feature = "weak-ptrs")]
     pub w: [Option<Weak<Node>>; MAXN],
+    #[cfg(feature = "weak-ptrs")]
+    pub w2: [Option<Weak<Node>>; MAXN],
+    /// model: target of the weak slot of node i
+    pub wedge: [u8; MAXN],
+    /// model: phantom weak references
+    pub wphantom: [u16; MAXN],
     // ---- shadow model
     pub edge: [[u8; 2]; MAXN],
     pub uedge: [u8; MAXN],
@@ -124,11 +142,18 @@ pub static mut W: World = World {
     fault_fired: 0,
     tainted: false,
     fin_act: [0; MAXN],
+    drop_act: [0; MAXN],
+    bad_upgrade: 0,
+    unwrapped: [false; MAXN],
     h: [NO_CC; MAXN],
     h2: [NO_CC; MAXN],
     stash: [NO_CC; MAXN],
     #[cfg(feature = "weak-ptrs")]
     w: [NO_WEAK; MAXN],
+    #[cfg(feature = "weak-ptrs")]
+    w2: [NO_WEAK; MAXN],
+    wedge: [NONE; MAXN],
+    wphantom: [0; MAXN],
     edge: [[NONE; 2]; MAXN],
     uedge: [NONE; MAXN],
     phantom: [0; MAXN],
@@ -276,10 +301,22 @@ impl Finalize for Node {
             #[cfg(feature = "weak-ptrs")]
             F_UPGRADE_STASH => {
                 if let Some(wk) = self.wslot() {
-                    if let Some(c) = wk.upgrade() {
-                        let t = c.id;
-                        check(w.drops[t] == 0 && c.canary == CANARY + t as u32, 9002); // C08: never a dropped value
-                        stash_put(t, c);
+                    let wt = w.wedge[id];
+                    match wk.upgrade() {
+                        Some(c) => {
+                            let t = c.id;
+                            // C08: never a dropped value, always the original allocation
+                            if w.drops[t] != 0 || c.canary != CANARY + t as u32 || t as u8 != wt || (&**(&c)) as *const Node as usize != w.addr[t] {
+                                w.bad_upgrade += 1;
+                            }
+                            stash_put(t, c);
+                        }
+                        None => {
+                            // finalizers run before any destruction of the set begins: the target must be gone already
+                            if wt != NONE && w.drops[wt as usize] == 0 && !w.unwrapped[wt as usize] && model_count(wt as usize) > 0 {
+                                w.bad_upgrade += 1;
+                            }
+                        }
                     }
                 }
             }
@@ -288,7 +325,9 @@ impl Finalize for Node {
                 if let Some(wk) = self.wslot() {
                     if let Some(c) = wk.upgrade() {
                         let t = c.id;
-                        check(w.drops[t] == 0 && c.canary == CANARY + t as u32, 9002);
+                        if w.drops[t] != 0 || c.canary != CANARY + t as u32 {
+                            w.bad_upgrade += 1;
+                        }
                         let old = core::mem::replace(&mut self.slots()[1], Some(c));
                         w.edge[id][1] = t as u8;
                         note_unreachable();
@@ -308,6 +347,9 @@ impl Drop for Node {
         if tracing_now() {
             w.bad_phase += 1;
         }
+        // what the weak slot's target looks like while `self` still owns its fields
+        let wt = w.wedge[id];
+        let wt_count_before = if wt != NONE { model_count(wt as usize) } else { 0 };
         w.drops[id] = w.drops[id].wrapping_add(1);
         event(K_DROP as u32, id as u64, 0);
         if self.canary != CANARY + id as u32 {
@@ -320,8 +362,50 @@ impl Drop for Node {
         // The drop glue releases the fields right after this returns: mirror it in the model.
         w.edge[id] = [NONE; 2];
         w.uedge[id] = NONE;
+        w.wedge[id] = NONE;
         note_unreachable();
         maybe_fault(K_DROP);
+        match w.drop_act[id] {
+            D_TEMP => {
+                let c = Cc::new(9u32);
+                drop(c);
+            }
+            D_COLLECT => {
+                let before = state::executions_count().unwrap_or(0);
+                let collecting = w.in_collect;
+                collect_cycles();
+                if collecting && state::executions_count().unwrap_or(0) != before {
+                    w.nested_collect += 1;
+                }
+            }
+            #[cfg(feature = "weak-ptrs")]
+            D_UPGRADE => {
+                if let Some(wk) = self.wslot() {
+                    let t = wt as usize;
+                    let up = wk.upgrade();
+                    // C08: None for `self` (its destruction has begun), for dropped values and for members of the garbage
+                    // set the collector is destroying; Some whenever a Cc to the target exists and its destruction has
+                    // not begun (in the reference-count path `self` still owns its fields while its destructor runs)
+                    let (collecting, _, _) = rust_cc::verif::phase_flags();
+                    let alive_outside = wt != NONE && t != id && w.created[t] && w.drops[t] == 0 && !w.unwrapped[t]
+                        && (if collecting { reach_set()[t] } else { wt_count_before > 0 });
+                    match up {
+                        Some(c) => {
+                            if !alive_outside || c.canary != CANARY + t as u32 {
+                                w.bad_upgrade += 1;
+                            }
+                            stash_put(t, c);
+                        }
+                        None => {
+                            if alive_outside {
+                                w.bad_upgrade += 1;
+                            }
+                        }
+                    }
+                }
+            }
+            _ => {}
+        }
     }
 }
 
@@ -692,6 +776,7 @@ pub fn oracle_safety(base: u32) {
     check(w.fin_after_drop == 0, base + 9); // C05
     check(w.drop_unfinalized == 0, base + 10); // C05: finalized before dropped
     check(w.nested_collect == 0, base + 12); // C12: collections never nest
+    check(w.bad_upgrade == 0, base + 16); // C08: upgrades inside callbacks agree with the model
     for i in 0..w.n {
         if !w.created[i] {
             continue;
